@@ -146,7 +146,10 @@ fn program(ctx: &Ctx, case: u64, r: &mut Rng, rep: &mut Report) {
                 // content in several parts, as the packer hands it over
                 let mut list = rustic_core::BytesList::default();
                 if len > 2 && r.chance(1, 2) {
-                    let cut = r.usize_below(len);
+                    // parts are never empty: rustic_core never hands over empty parts, and OpenDAL's fs service
+                    // (0.58) loops forever on a multi-part buffer whose first part is empty (observed: endless
+                    // pwrite64(count=0) in a tokio worker) - a dependency issue outside what the library can produce
+                    let cut = 1 + r.usize_below(len - 1);
                     list.add(data.slice(..cut));
                     list.add(data.slice(cut..));
                 } else {
@@ -409,17 +412,27 @@ fn concurrent_case(ctx: &Ctx, case: u64, r: &mut Rng, rep: &mut Report) {
                 }
             });
         }
+        // whatever happens to the writers, the readers must be told to stop
+        struct StopOnDrop<'a>(&'a AtomicBool);
+        impl Drop for StopOnDrop<'_> {
+            fn drop(&mut self) {
+                self.0.store(true, Ordering::SeqCst);
+            }
+        }
+        let _stop = StopOnDrop(&stop);
         std::thread::scope(|w| {
             for chunk in files.chunks(n_files / 3) {
                 let be = be.clone();
+                let bad = &bad;
                 let _ = w.spawn(move || {
                     for (id, d) in chunk {
-                        be.write_bytes(t, id, false, d.clone().into()).expect("write");
+                        if let Err(e) = be.write_bytes(t, id, false, d.clone().into()) {
+                            bad.lock().unwrap().push(format!("write of {id} failed: {}", errstr(&e)));
+                        }
                     }
                 });
             }
         });
-        stop.store(true, Ordering::SeqCst);
     });
     rep.evaluations += 1;
     rep.count("concurrent_listing_observations", seen.load(Ordering::Relaxed));
@@ -510,14 +523,14 @@ fn strace_tier(ctx: &Ctx, rep: &mut Report) {
 }
 
 pub fn run(ctx: &Ctx) -> (Report, Meta) {
-    let mut rep = run_cases(ctx, ctx.tier.pick(90, 4500), &program);
+    let mut rep = run_cases(ctx, ctx.tier.pick(450, 20_000), &program);
     let mut c2 = ctx.clone();
     c2.seed ^= 0x20a;
-    rep.merge(run_cases(&c2, ctx.tier.pick(40, 800), &|c, i, r, rep| publish_case(c, i + 1_000_000, r, rep)));
+    rep.merge({ let mut cb = c2.clone(); cb.case_base = 1_000_000; run_cases(&cb, ctx.tier.pick(40, 800), &|c, i, r, rep| publish_case(c, i + 1_000_000, r, rep)) });
     let mut c3 = ctx.clone();
     c3.seed ^= 0x20b;
     c3.threads = 2;
-    rep.merge(run_cases(&c3, ctx.tier.pick(2, 12), &|c, i, r, rep| concurrent_case(c, i + 2_000_000, r, rep)));
+    rep.merge({ let mut cb = c3.clone(); cb.case_base = 2_000_000; run_cases(&cb, ctx.tier.pick(2, 12), &|c, i, r, rep| concurrent_case(c, i + 2_000_000, r, rep)) });
     if ctx.only_case.is_none() {
         strace_tier(ctx, &mut rep);
     }
